@@ -3,6 +3,11 @@
 import json, glob, os
 
 STRENGTHENED = {
+ 'C01e-heartbeatresp-confirms-every-pending-read': '- (needs 5 voters, a deposed leader with one follower and a delayed confirmation: the read-confirmation monitor of C06 sees the cause in every run, the history oracle of C01 does not reach the stale read in the quick tier)',
+ 'C04e-prepare-outside-the-lock': 'the comparison of every replica with the replay of the committed log (replay stage) reports to C04 as well when the replica went through a recovery; the first trial of C04 / C08 had died on defect 22 of the unchanged tree (the scratch copy predated its fix) and was repeated',
+ 'C11e-concurrent-save-sessions-after-prepare': 'rsmcheck/twins: in half of the overlapped saves an apply batch is already queued behind the lock when PrepareSnapshot returns (it runs right after the section that fixes index, sessions and image)',
+ 'C12e-logquery-dropped-by-prevote-candidate': 'requests stage: PreVote in half of the cases; log queries get the tick bound too (timeout 0 + 300 ticks); during the expiry drain one host is cut off and is sent requests of every kind first',
+ 'C17e-restoreremotes-forgets-witness-addresses': 'progress stage: directed case 2 voters + witness, snapshots covering AddWitness (follower optionally repaired by snapshot), follower host restarted, then the leader host stays down: the follower must lead with the witness within 400 ticks and complete a proposal',
  'C17d-lower-term-noop-only-with-checkquorum': 'caught as it was (E1, 1 key); silent at seed 1 once a quarter of the E1 cases had become rate limiting cases (the case that caught it was displaced): a third of the partitions of the C17 cases now mute the target of the latest leader transfer (caught at seeds 1-3, 5-7 cases of 6400 each)',
  'C01d-early-replicate-commit-cap-neutralised': 'the E2 learner stage (single voter + non-voting replica, power loss between the early Replicate and SaveRaftState) reports the same observation in terms of C01 and is registered for C01',
  'C04d-ondisk-shrink-before-sync': 'crash sites at the user state machine boundary (exit of RecoverFromSnapshot, entry of the first Sync after it, entry / exit of SaveSnapshot, any Sync); power loss of the follower while it is being caught up by snapshot in the catch-up cycles; replay stage registered for C04',
